@@ -21,7 +21,7 @@ ID = "C15"
 TECHNIQUE = "exhaustive enumeration of arrival patterns on a P/2 grid x all tie orders of equal-deadline timers, real throttle in exact virtual time"
 RULE = (
     "n calls with inter-arrival gaps in {0, P/2, P, 3P/2}, limit 1..3, period as float or "
-    "timedelta, call duration in {0, P/2, 2P}, optionally one failing call (own exception class, or one of 13 built-in classes a wrapper might handle itself); all orders of timers "
+    "timedelta, call duration in {0, P/2, P, 2P}, optionally one failing call (own exception class, or one of 13 built-in classes a wrapper might handle itself); all orders of timers "
     "sharing a deadline, sub-family with two equal-deadline timers landing in one loop iteration; sub-family with one caller cancelled at any quiescent point (window / order "
     "/ outcome of the other calls); non-trivial = at least one call was delayed or more than `limit` calls "
     "arrived within one period"
@@ -49,11 +49,13 @@ def programs(tier: str):
     for n in range(1, n_max + 1):
         for gaps in itertools.product(GAPS, repeat=n - 1):
             for limit in (1, 2, 3):
-                for dur in (0.0, 0.5, 2.0):  # in units of P
+                for dur in (0.0, 0.5, 1.0, 2.0):  # in units of P (1.0: a call ends exactly when its slot expires)
                     for period in ("float", "timedelta"):
                         if period == "timedelta" and (dur != 0.5):
                             continue  # the period form does not interact with durations
                         for fail in (None, 0, n - 1):
+                            if dur == 1.0 and (n > (4 if tier == "quick" else 6) or fail is not None):
+                                continue
                             if fail is not None and (dur == 2.0 or (fail == n - 1 and n == 1)):
                                 continue
                             yield {
